@@ -1,14 +1,14 @@
 """C04: cpl / cp / gp.  Generated stopping test (Gen/DecideNL.lean) + planted convex quadratic programs through cpl and cp, every
 'optimal' answer judged by the Lean rational checker (Model/CertCheckNL.lean) with f, Df re-evaluated exactly at the returned point;
 cp on a quadratic objective vs coneqp; gp vs cp on the same log-sum-exp data; restricted-domain F (returned x must lie in dom F)."""
-import os, sys, random, math
+import copy, os, sys, random, math
 from fractions import Fraction
 import vlib
 sys.path.insert(0, os.path.join(vlib.VERIF, 'tools', 'translate'))
 from corr import certlib
 from corr.certlib import fr, vec, cols, quiet, prob_line, parse_out, mlist
 
-LEAN_TARGETS = ['CvxVerif.Props.C04', 'CvxVerif.Props.C04Gen']
+LEAN_TARGETS = ['CvxVerif.Props.C04', 'CvxVerif.Props.C04Gen', 'CvxVerif.Props.C04Gap']
 MODEL_FILES = ['CvxVerif.Model.CertCheckNL', 'CvxVerif.Gen.DecideNL']
 LEVEL = 'proof'
 TRUSTED = ['translator py2lean.gen_decide_nl (stopping test and result dictionary of cpl) and its combinators',
@@ -89,6 +89,7 @@ def correspond(ctx):
     breakdowns = []          # numerical breakdowns that escape as exceptions: no 'optimal' was returned, so not this property's subject unless systematic (C10 lists them)
     solvers.options.clear(); solvers.options['show_progress'] = False
     rng = random.Random(ctx.seed * 6151 + 4)
+    rng_s = random.Random(ctx.seed * 4111 + 44)          # own stream for the small-objective runs
     n = 30 if ctx.quick() else 500
     lines, meta = [], []
     stat = {}
@@ -128,6 +129,26 @@ def correspond(ctx):
                     vec(o.xh), vec(mlist(r['x'])), vec(mlist(r['snl'])), vec(mlist(r['sl'])), vec(mlist(r['y'])), vec(mlist(r['znl'])), vec(mlist(r['zl'])),
                     fr(certlib.tol_eff(t[0])), fr(certlib.tol_eff(t[1])), fr(certlib.tol_eff(t[2]))))
                 meta.append(('cpl', r, desc, t))
+        # ------------------------------------------------ the same QCQP with an objective of small magnitude (|c'x| << 1) and the absolute criterion switched
+        # off in effect (abstol 1e-12): 'optimal' must then rest on the relative gap as documented, gap / |objective| <= reltol
+        if it % 3 == 0 and r is not None:
+            tsc = rng_s.choice([1e-3, 1e-2, 1e-4])
+            pr2 = copy.copy(pr); pr2.c = [a * tsc for a in pr.c]
+            opts2 = {'show_progress': False, 'abstol': 1e-12}
+            desc2 = dict(desc, c=pr2.c, options=dict(opts2), kktsolver=None)
+            evals += 1
+            try: r2 = quiet(solvers.cpl, c * tsc, F, G, h, pr.dims, A, b, options=opts2)
+            except Exception: r2 = None          # exceptions are judged on the unscaled problem above
+            if r2 is not None:
+                bump('cpl-small-objective:' + r2['status'])
+                if r2['status'] == 'optimal':
+                    t = tolv(opts2)
+                    lines += [prob_line(pr2)] + quad_lines(o.quads)
+                    meta += [None] * (1 + len(o.quads))
+                    lines.append('optimalcpl x0=%s x=%s snl=%s sl=%s y=%s znl=%s zl=%s tol=%s,%s,%s' % (
+                        vec(o.xh), vec(mlist(r2['x'])), vec(mlist(r2['snl'])), vec(mlist(r2['sl'])), vec(mlist(r2['y'])), vec(mlist(r2['znl'])), vec(mlist(r2['zl'])),
+                        fr(certlib.tol_eff(t[0])), fr(certlib.tol_eff(t[1])), fr(certlib.tol_eff(t[2]))))
+                    meta.append(('cpl', r2, desc2, t))
         # ------------------------------------------------ cp on a quadratic objective (+ constraints); compare with coneqp when no quadratic constraints
         o = plant(rng, PR, True)
         pr = o.pr
